@@ -55,6 +55,9 @@ REV=[
  ("bound the exponent of decimal literals",["C06"],"R-TERM/T-cost"),
  ("merge format edits that share a source line",["C19"],"R-CONST/disjoint"),
  ("a j5 Any holding a message with every field at its default",["C01"],"R-FLOW/anycontent"),
+ ("required arrays and maps read back from proto as not required",["C04"],"R-PROV/required"),
+ ("entities whose name ends in a capital letter were rejected",["C07"],"R-PROV/entityname"),
+ ("boolean fields could not be supplied as URL query parameters",["C03"],"R-FLOW/kinds"),
 ]
 n=0
 for sub,props,expect in REV:
